@@ -34,6 +34,18 @@ type SSTableStreamWriter struct {
 }
 
 func (writer *SSTableStreamWriter) Open() error {
+	// the metadata file is created first and filled last (in Close): while it is empty the table is incomplete,
+	// which is how a table that was being written when the process died can be recognized
+	writer.metaFilePath = filepath.Join(writer.opts.basePath, MetaFileName)
+	metaFile, err := os.OpenFile(writer.metaFilePath, os.O_WRONLY|os.O_CREATE, 0666)
+	if err != nil {
+		return fmt.Errorf("error while opening metadata file in '%s': %w", writer.opts.basePath, err)
+	}
+	writer.metaDataFile = metaFile
+	writer.metaData = &sProto.MetaData{
+		Version: Version,
+	}
+
 	writer.indexFilePath = filepath.Join(writer.opts.basePath, IndexFileName)
 	iWriter, err := rProto.NewWriter(
 		rProto.Path(writer.indexFilePath),
@@ -63,16 +75,6 @@ func (writer *SSTableStreamWriter) Open() error {
 	err = writer.dataWriter.Open()
 	if err != nil {
 		return fmt.Errorf("error while opening data writer in '%s': %w", writer.opts.basePath, err)
-	}
-
-	writer.metaFilePath = filepath.Join(writer.opts.basePath, MetaFileName)
-	metaFile, err := os.OpenFile(writer.metaFilePath, os.O_WRONLY|os.O_CREATE, 0666)
-	if err != nil {
-		return fmt.Errorf("error while opening metadata file in '%s': %w", writer.opts.basePath, err)
-	}
-	writer.metaDataFile = metaFile
-	writer.metaData = &sProto.MetaData{
-		Version: Version,
 	}
 
 	if writer.opts.enableBloomFilter {
